@@ -97,49 +97,17 @@ namespace Scalibr.Pom
 without placeholders. -/
 theorem C13_pom_props_total (s1 s2 : Str) : gen s1 s2 ≠ .panic := gen_total s1 s2
 
-/-
-Full-strength soundness — "a returned patch map, substituted into s1, gives s2":
-    gen s1 s2 = .ok ps → interpolate (lookupLast ps) s1 = s2
-is FALSE for the unchanged code when a placeholder name occurs twice with different values (the Go map
-keeps the last assignment): see `C13_pom_props_repeated_name_witness`.  In force: the `_partial` form.
--/
+/-- Soundness of the returned patch map, full strength (fix d4dd80ce): whenever `generatePropertyPatches`
+answers with a map, interpolating the old requirement string with that map gives exactly the requested
+version — for all strings, repeated placeholder names included — and no name was assigned two values. -/
+theorem C13_pom_props_sound (s1 s2 : Str) (ps : List (Str × Str)) (h : gen s1 s2 = .ok ps) :
+    interpolate (lookupLast ps) s1 = s2 ∧ Consistent ps :=
+  ⟨gen_sound s1 s2 ps h, gen_consistent s1 s2 ps h⟩
 
-/-- Soundness of the returned patch map whenever no placeholder name was assigned two different
-values: interpolating the old requirement string with the map gives exactly the requested version. -/
-theorem C13_pom_props_sound_partial (s1 s2 : Str) (ps : List (Str × Str)) (h : gen s1 s2 = .ok ps)
-    (hc : Consistent ps) : interpolate (lookupLast ps) s1 = s2 := gen_sound s1 s2 ps h hc
-
-/-- distinct placeholder names are enough for `Consistent` -/
-theorem C13_pom_props_sound_distinct (s1 s2 : Str) (ps : List (Str × Str)) (h : gen s1 s2 = .ok ps)
-    (hd : (ps.map (·.1)).Nodup) : interpolate (lookupLast ps) s1 = s2 := by
-  apply gen_sound s1 s2 ps h
-  intro p hp
-  unfold lookupLast
-  have hd' : (ps.reverse.map (·.1)).Nodup := by
-    rw [List.map_reverse]; unfold List.Nodup at *; exact List.pairwise_reverse.mpr (hd.imp (fun h => Ne.symm h))
-  have hp' : p ∈ ps.reverse := List.mem_reverse.mpr hp
-  generalize ps.reverse = l at hd' hp'
-  induction l with
-  | nil => cases hp'
-  | cons x xs ih =>
-    simp only [List.map, List.nodup_cons] at hd'
-    by_cases hx : x.1 = p.1
-    · simp only [List.find?, hx, decide_true]
-      simp at hp'
-      rcases hp' with rfl | hp'
-      · rfl
-      · exfalso; apply hd'.1; rw [hx]; exact List.mem_map_of_mem hp'
-    · simp only [List.find?, hx, decide_false]
-      simp at hp'
-      rcases hp' with rfl | hp'
-      · exact absurd rfl hx
-      · exact ih hd'.2 hp'
-
-/-- the counterexample to full-strength soundness (known finding C13/pom-props-repeated-name):
-`${v}-${v}` → `1-2` is answered with the map `{v ↦ 2}`, which interpolates to `2-2`. -/
-theorem C13_pom_props_repeated_name_witness :
-    gen "${v}-${v}".toList "1-2".toList = .ok [("v".toList, "1".toList), ("v".toList, "2".toList)] ∧
-    interpolate (lookupLast [("v".toList, "1".toList), ("v".toList, "2".toList)]) "${v}-${v}".toList = "2-2".toList := by
+/-- the former counterexample: `${v}-${v}` → `1-2` is now refused, `${v}-${v}` → `2-2` is answered `{v ↦ 2}` -/
+theorem C13_pom_props_repeated_name_fixed :
+    gen "${v}-${v}".toList "1-2".toList = .no ∧
+    gen "${v}-${v}".toList "2-2".toList = .ok [("v".toList, "2".toList), ("v".toList, "2".toList)] := by
   decide
 
 /-- the three shapes that used to panic now return "no" -/
@@ -153,7 +121,7 @@ theorem C13_pom_identity (pom : Pom) : write pom [] = pom := by
   simp only [List.foldl, newDeps, List.filter_nil, List.map_nil, List.append_nil]
   have h1 : pom.deps.map (applyDep ⟨[], []⟩) = pom.deps := by
     have : pom.deps.map (applyDep ⟨[], []⟩) = pom.deps.map id := by
-      apply List.map_congr_left; intro d _; unfold applyDep; split <;> simp
+      apply List.map_congr_left; intro d _; unfold applyDep; simp
     simpa using this
   have h2 : pom.props.map (applyProp ⟨[], []⟩) = pom.props := by
     have : pom.props.map (applyProp ⟨[], []⟩) = pom.props.map id := by
@@ -165,38 +133,43 @@ theorem C13_pom_identity (pom : Pom) : write pom [] = pom := by
 Full-strength statement for the pom.xml writer at requirement level:
     requirements (write pom us) = substitute (requirements pom) us
 for every pom and every set of updates addressed to requirements present in it.  It is FALSE for the
-unchanged code in the five situations of `C13_pom_class_witnesses` (known findings C13/pom-…); the
+unchanged code in the two situations of `C13_pom_class_witnesses` (known findings C13/pom-…); the
 general theorem in force is `C13_pom_literal_roundtrip`, the remaining cases (property-based versions,
 several updates) are covered by the correspondence stream with this very statement as its oracle.
 -/
 
 /-- pom.xml round trip, literal fragment: all versions in the file are literals, keys are unique over
-the whole file, no key element carries white space, and one update addresses an existing entry (by
+the whole file, and one update addresses an existing entry (by
 key, origin and old version) with a literal new version.  Then re-reading the written pom gives the
 original requirements with that version substituted.  Any number of dependencies, sections, profiles. -/
 theorem C13_pom_literal_roundtrip (pom : Pom) (u : Upd) (d : Dep) (c : LiteralCase pom u d) :
     requirements (write pom [u]) = substitute (requirements pom) [u] :=
   C13_pom_literal_roundtrip_aux pom u d c
 
-/-- the five classes in which the unchanged pom.xml writer leaves the property, on the model:
-white space in a key element, an update addressed to dependencyManagement while `<dependencies>` holds
-the same key, `${project.version}`, a repeated placeholder, a property shared with another dependency. -/
+/-- the two classes in which the unchanged pom.xml writer still leaves the property, on the model: an
+update addressed to dependencyManagement while `<dependencies>` holds the same key, and a property shared
+with another dependency. -/
 theorem C13_pom_class_witnesses :
-    (let pom : Pom := ⟨[⟨[], ['x'], ['y'], [], [], "1.0".toList, true⟩], [], "1.0".toList⟩
-     let us : List Upd := [⟨['x'], ['y'], [], [], [], "1.0".toList, "1.5".toList⟩]
-     requirements (write pom us) ≠ substitute (requirements pom) us ∧ feature pom us = some "C13/pom-key-whitespace") ∧
     (let pom : Pom := ⟨[⟨[], ['x'], ['y'], [], [], "1.0".toList, false⟩, ⟨sManagement, ['x'], ['y'], [], [], "2.0".toList, false⟩], [], "1.0".toList⟩
      let us : List Upd := [⟨['x'], ['y'], [], [], sManagement, "2.0".toList, "2.5".toList⟩]
      requirements (write pom us) ≠ substitute (requirements pom) us ∧ feature pom us = some "C13/pom-origin-ignored") ∧
-    (let pom : Pom := ⟨[⟨[], ['x'], ['y'], [], [], "${project.version}".toList, false⟩], [], "1.0".toList⟩
-     let us : List Upd := [⟨['x'], ['y'], [], [], [], "1.0".toList, "1.5".toList⟩]
-     requirements (write pom us) ≠ substitute (requirements pom) us ∧ feature pom us = some "C13/pom-undefined-property") ∧
-    (let pom : Pom := ⟨[⟨[], ['x'], ['z'], [], [], "${v}-${v}".toList, false⟩], [⟨[], ['v'], "1.0".toList⟩], "1.0".toList⟩
-     let us : List Upd := [⟨['x'], ['z'], [], [], [], "1.0-1.0".toList, "1.0-2.0".toList⟩]
-     requirements (write pom us) ≠ substitute (requirements pom) us ∧ feature pom us = some "C13/pom-props-repeated-name") ∧
     (let pom : Pom := ⟨[⟨[], ['x'], ['y'], [], [], "${v}".toList, false⟩, ⟨[], ['x'], ['z'], [], [], "${v}".toList, false⟩], [⟨[], ['v'], "1.0".toList⟩], "1.0".toList⟩
      let us : List Upd := [⟨['x'], ['y'], [], [], [], "1.0".toList, "1.5".toList⟩]
      requirements (write pom us) ≠ substitute (requirements pom) us ∧ feature pom us = some "C13/pom-shared-property") := by
+  decide
+
+/-- the three repaired classes, on the model: white space in a key element (5743d35a), `${project.version}`
+(f5d17448), a repeated placeholder with different values (d4dd80ce) now read back as substituted. -/
+theorem C13_pom_fixed_witnesses :
+    (let pom : Pom := ⟨[⟨[], ['x'], ['y'], [], [], "1.0".toList, true⟩], [], "1.0".toList⟩
+     let us : List Upd := [⟨['x'], ['y'], [], [], [], "1.0".toList, "1.5".toList⟩]
+     requirements (write pom us) = substitute (requirements pom) us) ∧
+    (let pom : Pom := ⟨[⟨[], ['x'], ['y'], [], [], "${project.version}".toList, false⟩], [], "1.0".toList⟩
+     let us : List Upd := [⟨['x'], ['y'], [], [], [], "1.0".toList, "1.5".toList⟩]
+     requirements (write pom us) = substitute (requirements pom) us) ∧
+    (let pom : Pom := ⟨[⟨[], ['x'], ['z'], [], [], "${v}-${v}".toList, false⟩], [⟨[], ['v'], "1.0".toList⟩], "1.0".toList⟩
+     let us : List Upd := [⟨['x'], ['z'], [], [], [], "1.0-1.0".toList, "1.0-2.0".toList⟩]
+     requirements (write pom us) = substitute (requirements pom) us) := by
   decide
 
 /-- `LiteralCase` is satisfiable on a pom with a profile and dependencyManagement. -/
